@@ -6,6 +6,11 @@ use crate::types::{Key, KeyId, Prio};
 use priority_queue::verif::VerifSnapshot;
 use priority_queue::{DoublePriorityQueue, PriorityQueue};
 
+thread_local! {
+    /// Some(v): an `==` and the `!=` of the same two queues both returned v
+    pub static NE_DISAGREES: std::cell::Cell<Option<bool>> = const { std::cell::Cell::new(None) };
+}
+
 pub type PQ = PriorityQueue<Key, Prio, DynState>;
 pub type DPQ = DoublePriorityQueue<Key, Prio, DynState>;
 
@@ -228,12 +233,19 @@ impl AnyQ {
     pub fn prio_stamp(&self, k: &KeyId) -> Option<(i32, u32)> {
         both!(self, q => q.get_priority(k)).map(|p| (p.v, p.s))
     }
+    /// `==`; the `!=` operator is evaluated too and must be its negation (an override of the
+    /// provided `PartialEq::ne` may disagree): a disagreement is remembered and reported by the
+    /// next `post_check` under C14
     pub fn eq_q(&self, o: &AnyQ) -> bool {
-        match (self, o) {
-            (AnyQ::Pq(a), AnyQ::Pq(b)) => a == b,
-            (AnyQ::Dpq(a), AnyQ::Dpq(b)) => a == b,
+        let (e, n) = match (self, o) {
+            (AnyQ::Pq(a), AnyQ::Pq(b)) => (a == b, a != b),
+            (AnyQ::Dpq(a), AnyQ::Dpq(b)) => (a == b, a != b),
             _ => panic!("harness: eq of different kinds"),
+        };
+        if e == n {
+            NE_DISAGREES.with(|c| c.set(Some(e)));
         }
+        e
     }
 }
 
